@@ -258,10 +258,85 @@ COLLISION_TEXTS = [
     "my.f((1, 2), (2, 3), 3)", "my.f(k=1, v=2)", "my.f(a=b, b=a)", "concat('a', 'b') eq concat('b', 'a')",
     "hassubset((1, 2, 3), (3, 2, 1))", "my.f(1, 1, 2, 2, 3)", "my.f(a, a, b)", "my.g(b, my.g(a, b), a)",
     "xs/any(a: my.f(a, b, xs))", "indexof(a, b) eq indexof(b, a)",
+    "status in (1, 2, 1)", "x in ('a', 'b', 'a', 'a')", "my.f(1, 1, 1)", "my.f((1, 1), (1, 1))",
+    "concat('a', 'a') eq 'a'", "n in (1, 2, 3, 2, 1, 2)", "my.f(k=1, v=1, w=(1, 1))", "substring('a', 1, 1) eq 'a'",
 ]
 
 
+def _replace_kth(t, lit_kind, k, new):
+    """The term with its k-th (left to right) literal of kind lit_kind replaced."""
+    cnt = [0]
+
+    def go(n):
+        kk = n[0]
+        if kk == "lit":
+            if n[1] == lit_kind:
+                cnt[0] += 1
+                if cnt[0] - 1 == k:
+                    return ("lit", lit_kind, new)
+            return n
+        if kk == "id":
+            return n
+        if kk == "attr":
+            return ("attr", go(n[1]), n[2])
+        if kk == "list":
+            return ("list", tuple(go(x) for x in n[1]))
+        if kk in ("bin", "cmp", "bool"):
+            l = go(n[2])
+            return (kk, n[1], l, go(n[3]))
+        if kk == "un":
+            return ("un", n[1], go(n[2]))
+        if kk == "call":
+            return ("call", n[1], tuple(go(x) for x in n[2]))
+        if kk == "np":
+            return ("np", n[1], go(n[2]))
+        if kk == "lam":
+            o = go(n[1])
+            return ("lam", o, n[2], n[3], None if n[4] is None else go(n[4]))
+        raise ValueError(n)
+    return go(t)
+
+
+def judge_selective_handlers(ctx, node, before, case):
+    """Handlers that replace ONE node (chosen by identity: the k-th of its kind) and hand every
+    other node back as the very object they were given - the others may be equal by value."""
+    nodes = ref_preorder(node, [])
+    for kind, lit_kind, marker, mk in (("Integer", "int", "777", ast.Integer), ("String", "str", "~mark", ast.String)):
+        targets = [n for n in nodes if type(n).__name__ == kind]
+        if len({id(n) for n in targets}) != len(targets) or not targets:
+            continue
+        picks = sorted({len(targets) - 1, len(targets) // 2, 0} |
+                       {i for i, n in enumerate(targets) if any(m == n for m in targets[:i])})[:8]
+        for k in picks:
+            target = targets[k]
+
+            def handler(self, n, target=target):
+                return mk(marker) if n is target else n
+            trc = type("Only_%s_%d" % (kind, k), (V.NodeTransformer,), {"visit_" + kind: handler})
+            ctx.count("evaluations")
+            ctx.count("selective_handlers")
+            try:
+                got = decode(trc().visit(node))
+            except Exception as ex:
+                ctx.fail(dict(case, handler=trc.__name__), "transformer with a selective override raised",
+                         observed=repr(ex)[:200], cls="transform-selective", sig=["tsel-exc", kind])
+                return False
+            want_t = _replace_kth(before, lit_kind, k, marker)
+            if got != want_t:
+                ctx.fail(dict(case, handler=trc.__name__),
+                         "transformer with a handler that replaces one node changed other nodes",
+                         expected=want_t, observed=got, cls="transform-selective", sig=["tsel", kind])
+                return False
+            if decode(node) != before:
+                ctx.fail(dict(case, handler=trc.__name__), "transformer mutated its input",
+                         cls="transform-selective", sig=["tsel-mut"])
+                return False
+    return True
+
+
 def judge_value_handlers(ctx, node, before, case, big):
+    if not judge_selective_handlers(ctx, node, before, case):
+        return False
     for kd in ("Integer", "String", "Identifier", "Same", "Empty"):
         made = make_value_transformer(kd, node)
         if made is None:
